@@ -23,10 +23,13 @@ PROPS = {
          "A1 Python semantics as encoded, A2 total order on keys, A3 persistent.__setattr__, A7 z3 + VC generator; "
          "L-hist (refinement implies histories) is argued in DESIGN.md 5.4, not machine-checked", "7/C01"),
  "C02": (True, "proof", T_P + BOUNDED,
-         "Proved: _range for all 36 bound/flag cases, keys/values slices (ghost out-parameter), leaf minKey/maxKey, "
-         "against the interval oracle of the statement. Bounded: tree-level range search of both implementations and "
-         "the lazy sequences (range_rt).",
-         "A1, A2, A7; empty-leaf minKey()/maxKey() raising IndexError in Python is a recorded finding", "7/C02"),
+         "Proved (Python): _range for every bound/flag combination, keys/values slices, leaf minKey/maxKey against the interval oracle "
+         "of the statement; at the interior level _Tree.maxKey(b) returns the greatest key <= b of the whole subtree also through "
+         "stale separators and raises ValueError only if no key qualifies (order view: least/greatest key and key-set summaries of "
+         "the children, node-local). Bounded: _Tree.minKey, the lazy sequences (_TreeItems / BTreeItems), tree-level range search "
+         "of both implementations on every reached shape incl. stale separators (range_rt).",
+         "A1, A2, A7; _Tree.minKey of a child subtree is an assumed contract in the order view; recorded finding: empty-leaf "
+         "minKey()/maxKey() raising IndexError in Python", "7/C02 and 12.11"),
  "C03": (True, "proof", T_P + BOUNDED,
          "Proved (Python, all trees): every mutator of the interior-node layer (_Tree._set, _grow, _split, _split_root, _del, "
          "_deleteNextBucket; structural view, node-local with children abstracted by first-leaf / successor-link summaries) "
